@@ -11,7 +11,8 @@
 (*    4 intersection, and for kinds of one version 5 a <= a|b, 6 b <= a|b, *)
 (*    7 a&b <= a, 8 a&b <= b, 9 upgrade both to w and compare;             *)
 (*  - rows = 1 asks for the third-kind rows (a|b <= c, c <= a&b for every  *)
-(*    c of the same version, in the order of IOEnv.KINDS): the triples.    *)
+(*    c of the same version, in the order of IOEnv.KINDS): the triples     *)
+(*    (for a before or equal to b in that order; both calls are symmetric).*)
 (***************************************************************************)
 EXTENDS ProblemKindLattice, ProblemKindLatticeTables, SequencesExt
 CONSTANTS Triples,     \* ask for the third-kind rows
@@ -33,7 +34,7 @@ ScriptOf(i, j) == IF VerSeq[i] = VerSeq[j] THEN VerSeq[i] ELSE 0
 PairRows == [n \in 1..(NK * NK) |->
                LET i == ((n - 1) \div NK) + 1   j == ((n - 1) % NK) + 1 IN
                [a |-> i, b |-> j, al |-> 0, sc |-> ScriptOf(i, j),
-                rows |-> IF Triples /\ VerSeq[i] = VerSeq[j] THEN 1 ELSE 0]]
+                rows |-> IF Triples /\ VerSeq[i] = VerSeq[j] /\ i <= j THEN 1 ELSE 0]]
 AliasRows == [i \in 1..NK |-> [a |-> i, b |-> i, al |-> 1, sc |-> VerSeq[i], rows |-> 0]]
 
 ASSUME ndJsonSerialize(IOEnv.KINDS, KindRows)
